@@ -97,7 +97,37 @@ class ConclusionMixin:
         super().on_iteration_end(eng, st, ordinal)
 
 
-class ExceptIfEval(ConclusionMixin, EvalContract):
+class RefinementCacheMixin:
+    """result cache switched on: the refinement cache of the node (`right_cache`) is cold when the evaluation starts and only
+    this function's own insertions can make a lookup hit (ghost field rc_cov: "some insertion into right_cache happened")"""
+    caching_cases = (False, True)
+
+    def setup(self, eng):
+        sts = super().setup(eng)
+        for st in sts:
+            st.fields['rc_cov'] = z3.K(Z.Node, z3.BoolVal(False))
+        return sts
+
+    def getattr(self, eng, st, recv, name):
+        if isinstance(recv, Obj) and recv.kind == 'cache' and name == 'keys':
+            return [(st, Obj('keylist', {'ids': z3.Const('rc_keys', Z.ArrIB)}))]
+        return super().getattr(eng, st, recv, name)
+
+    def obj_cache_check(self, eng, st, recv, args, kwargs, node):
+        if recv.data['which'] != 'right_cache' or not recv.data['of'].eq(st.ghost['self']):
+            raise OutOfSubset("lookup in another cache", node)
+        return [(st, ZV(z3.Select(st.fields['rc_cov'], st.ghost['self']), 'bool'))]
+
+    def obj_cache_insert(self, eng, st, recv, args, kwargs, node):
+        if recv.data['which'] != 'right_cache' or not recv.data['of'].eq(st.ghost['self']):
+            raise OutOfSubset("insertion into another cache", node)
+        st = st.clone()
+        st.fields['rc_cov'] = z3.Store(st.fields['rc_cov'], st.ghost['self'], z3.BoolVal(True))
+        self.note_write(eng, st, 'rc_cov', st.ghost['self'])
+        return [(st, NONE)]
+
+
+class ExceptIfEval(RefinementCacheMixin, ConclusionMixin, EvalContract):
     qual = 'conclusion_selector:ExceptIf._evaluate__'
     cls = 'ExceptIf'
     props = ('C12',)
